@@ -358,6 +358,28 @@ def _r3(run, results, classes):
     else:
         run.fail('C02-R3', '%s|ZeemanStructure|evaluate|normalisation' % zs.mod.name, zs.mod.relpath, evm.lineno,
                  'ZeemanStructure.evaluate does not divide every component ratio by their accumulated sum: multiplet shares do not add up to one')
+    # the component groups may be any iterable (the constructor walks them once): a second traversal finds a one-shot iterable empty
+    zinit = zs.methods.get('__init__')
+    if zinit is not None:
+        from ._purity import traversed_more_than_once
+        from ..inline import flatten, module_lookup
+        try:
+            zf = flatten(zinit, module_lookup(zs.mod))
+        except Exception:
+            zf = zinit
+        zparams = [a.arg for a in zinit.args.args[1:]]
+        twice = {}
+        for f_ in [zf] + [g_ for g_ in dict.values(zs.mod.functions) if any(isinstance(c_, ast.Call) and dotted(c_.func) == g_.name for c_ in ast.walk(zinit))]:
+            twice.update(traversed_more_than_once(f_))
+        run.subject('C02-R3')
+        if twice:
+            nm = sorted(twice)[0]
+            run.fail('C02-R3', '%s|ZeemanStructure|__init__|traversed-twice' % zs.mod.name, zs.mod.relpath, twice[nm][1].lineno,
+                     "ZeemanStructure walks the component group '%s' more than once (validation, then wrapping): given a one-shot iterable (zip "
+                     "of wavelength and ratio functions, a generator) the second pass sees nothing, the structure has no components and the "
+                     "multiplet adds nothing at B != 0" % nm)
+        else:
+            run.ok('C02-R3', 'ZeemanStructure component groups', 'each walked once', sample=False)
     ml = classes['MultipletLineShape']
     init = ml.methods.get('__init__')
     run.subject('C02-R3')
